@@ -114,6 +114,18 @@ class EvalInterp(ArrInterp):
             return Sym("console")
         return super().external_call(name, args, kwargs, node)
 
+    def isinstance_hook(self, v, klass, node):
+        # the symbolic configuration values stand for objects of the documented kind: the metric
+        # selections hold Metric members (not names), the threshold a number
+        if isinstance(v, Sym) and v.name.startswith("CFG_") and "metric" in v.name:
+            ks = klass if isinstance(klass, tuple) else (klass,)
+            names = {getattr(k, "name", "") for k in ks}
+            if any(n in ("Metric", "_Metric") or str(n).endswith(":Metric") for n in names):
+                return True
+            if all(str(n).startswith("builtin:") for n in names):
+                return False
+        return super().isinstance_hook(v, klass, node)
+
     def labels_of(self, a: AArr) -> list:
         base = list(self.root.labels.get(a.side.replace("CC_", ""), []))
         if a.selection is not None and isinstance(a.selection[1], (list, tuple)):
